@@ -358,6 +358,44 @@ def mon_history(sc, r):
     return out
 
 
+def mon_attempt_model(sc, r):
+    """C07 / C02: the attempt loop model (Model/Attempts = run_test_instance's loop) as an acceptor of the observed history: for every
+    selected test, the attempts spawned (as numbered by the processes themselves), the statuses in its TestFinished and the delays
+    announced with TestAttemptFailedWillRetry must be what the model computes from the scripted per-attempt outcomes and the policy."""
+    out = []
+    total = sc.meta["retries"] + 1
+    pbt = procs_by_test(r); fin = finished_statuses(r)
+    reqs = []
+    for t in sc.meta["tests"]:
+        if not selected(sc, t): continue
+        outs = []
+        for i in range(total):
+            e = t["attempts"][min(i, len(t["attempts"]) - 1)]["expect"]
+            outs.append(e)
+        d = sc.meta["delay_ms"] * 1000000
+        kind = "e" if (sc.meta["backoff"] == "exponential" and d) else "f"
+        reqs.append((t, f"attempts {kind} {total - 1} {d} - {','.join(outs)} 1 -"))
+    if not reqs: return out
+    try: answers = vlib.run_driver([q for _, q in reqs])
+    except RuntimeError as e: return [dict(viol(sc, r, "machinery", f"model driver failed: {e}"), machinery=True)]
+    for (t, q), ans in zip(reqs, answers):
+        if ans in ("bad-op", "panic"): out.append(viol(sc, r, "attempt-model", f"the attempt-loop model answers {ans} on {q}")); continue
+        wsp, wfin, wds = ans.split(" ")
+        key = test_key(t); procs = pbt.get((t["bin"], t["name"]), [])
+        gsp = ",".join(p["env"].get("__NEXTEST_ATTEMPT", "?") for p in procs) or "."
+        sts = fin.get(key, [[]])[0]
+        gfin = ",".join(re.sub(r"FSUnixSignal\((\d+)\)", r"FS\1", s.split(":")[1]) for s in sts) or "-"
+        gds = []
+        for (ns, kind, data) in r.events:
+            if kind == "TestAttemptFailedWillRetry" and data.split(" ")[0] == key:
+                m = re.search(r"next_delay=(\d+)ms", data)
+                if m: gds.append(str(int(m.group(1)) * 1000000))
+        gds = ",".join(gds) or "."
+        if (gsp, gfin, gds) != (wsp, wfin, wds):
+            out.append(viol(sc, r, "attempt-model", f"test {t['name']!r}: attempts spawned {gsp}, final statuses {gfin}, announced delays {gds} ns; the attempt loop on the scripted outcomes gives {wsp} / {wfin} / {wds}  [{q}]"))
+    return out
+
+
 def mon_results(sc, r):
     """C03: per-attempt result vs what the process did; flaky iff passed after failures"""
     out = []
